@@ -1,7 +1,8 @@
 (* Properties_C06.v -- C06: a binary behaves identically on the RTL testbench (hextb) and on the simulator (hexsim).
    TbModel.run = hextb.cpp over the generated RTL (any power-on state); SimModel.run = hexsim.hpp (C02's model) from
-   cpp_init.  hextb's loader copies the whole rest of the file (image + symbol tables), hexsim's the hw image words of
-   the header: ws = the first hw loaded words is what both initialise identically. *)
+   cpp_init.  Both loaders read the words the header announces (hextb.cpp since its repair; the debug tables behind the
+   image are not program memory) and reject a file without header or with more than 200000 words announced: [file_ok],
+   [loaded_words]; everything else is zero in hexsim and power-on garbage in the RTL memory. *)
 From Coq Require Import ZArith List String.
 From HexVerif Require Import WMap Isa Vexp RtlSem TbModel TbProofs.
 From HexVerif Require SimModel.
@@ -18,16 +19,28 @@ Local Open Scope Z_scope.
    overwritten byte, hexsim the SVC), exhibited by tools/c06.py on every run with a hand-assembled binary.
    The former hypothesis "the first instruction is not a system call" is gone: since the repair of hextb.cpp the request of
    the instruction at address 0 is sampled at the last reset edge (known_findings.json: fixed, kind first-instruction-svc). *)
-Theorem C06_tb_equals_sim : forall (i : init) (file : list Z) (hw : nat) (inp : inputs) (n : nat)
+Theorem C06_tb_equals_sim_partial : forall (i : init) (file : list Z) (inp : inputs) (n : nat)
     (tr : list event) (inp' : inputs) (a' : arch) (c : Z),
-  let ws := firstn hw (loaded_words file) in
-  bytes_ok file -> (hw <= List.length (loaded_words file))%nat ->
-  well_behaved (Z.of_nat hw) ws inp ->
+  let ws := loaded_words file in
+  file_ok file ->
+  well_behaved (Z.of_nat (List.length ws)) ws inp ->
   Isa.run n (boot ws) inp [] = (tr, inp', a', Exited c) ->
   (exists st, run Current RtlHex.design (9 + 2 * n) 0 (power_on i file) inp [] = (tr, inp', st, TReturned (SimModel.to_int c))) /\
   (exists s, SimModel.run n 0 (SimModel.cpp_init ws) inp [] = (tr, inp', s, SimModel.Returned (SimModel.to_int c))).
 Proof. exact tb_equals_sim. Qed.
-Print Assumptions C06_tb_equals_sim.
+Print Assumptions C06_tb_equals_sim_partial.
+(* _partial: what is missing is exactly the READ clause of step_safe inside well_behaved.  The full statement (monitor
+   without that clause: well_behaved0) is false -- known finding read-overwrites-own-svc: *)
+Definition C06_tb_equals_sim_full : Prop :=
+  forall (i : init) (file : list Z) (inp : inputs) (n : nat) (tr : list event) (inp' : inputs) (a' : arch) (c : Z),
+  let ws := loaded_words file in
+  file_ok file -> well_behaved0 (Z.of_nat (List.length ws)) ws inp ->
+  Isa.run n (boot ws) inp [] = (tr, inp', a', Exited c) ->
+  (exists st, run Current RtlHex.design (9 + 2 * n) 0 (power_on i file) inp [] = (tr, inp', st, TReturned (SimModel.to_int c))) /\
+  (exists s, SimModel.run n 0 (SimModel.cpp_init ws) inp [] = (tr, inp', s, SimModel.Returned (SimModel.to_int c))).
+Theorem C06_tb_equals_sim_full_refuted : ~ C06_tb_equals_sim_full.
+Proof. exact tb_equals_sim_full_refuted. Qed.
+Print Assumptions C06_tb_equals_sim_full_refuted.
 
 (* the well-behavedness hypothesis is decided by a finite computation for a run that exits *)
 Theorem C06_well_behaved_decidable : forall (N : nat) (D : Z -> bool) (a : arch) (inp : inputs) (evs tr : list event)
@@ -38,10 +51,17 @@ Print Assumptions C06_well_behaved_decidable.
 
 (* ------------------------------------------------------------------ non-vacuity: `proc main() is exit(7)` as compiled by xcmp *)
 Example C06_hypotheses_satisfiable :
-  bytes_ok exit7_file /\ (9 <= List.length (loaded_words exit7_file))%nat /\
-  well_behaved 9 (firstn 9 (loaded_words exit7_file)) no_input /\
-  exists a', Isa.run 20 (boot (firstn 9 (loaded_words exit7_file))) no_input [] = ([Exit 7], no_input, a', Exited 7).
-Proof. split; [exact exit7_bytes_ok|]. split; [vm_compute; repeat constructor|]. split; [exact exit7_well_behaved_image | exact exit7_isa_run]. Qed.
+  file_ok exit7_file /\
+  well_behaved (Z.of_nat (List.length (loaded_words exit7_file))) (loaded_words exit7_file) no_input /\
+  exists a', Isa.run 20 (boot (loaded_words exit7_file)) no_input [] = ([Exit 7], no_input, a', Exited 7).
+Proof. split; [exact exit7_file_ok|]. split; [exact exit7_well_behaved_loaded | exact exit7_isa_run]. Qed.
+(* files the loader rejects (no header; 200001 words announced) never reach run(): main returns 1, as hexsim's does *)
+Example C06_loader_rejects :
+  tb_main Current RtlHex.design 100 0 (planted 0 0 false) [1; 0] no_input = None /\
+  tb_main Current RtlHex.design 100 0 (planted 0 0 false) [] no_input = None /\
+  tb_main Current RtlHex.design 100 0 (planted 0 0 false) [65; 13; 3; 0; 211; 0; 0; 0] no_input = None /\
+  (exists r, tb_main Current RtlHex.design 100 0 (planted 0 0 false) exit7_file no_input = Some r /\ outcome r = ([Exit 7], TReturned 7)).
+Proof. exact loader_rejects. Qed.
 (* a binary whose first instruction is OPR SVC (EXIT 42) satisfies the hypotheses; the testbench now exits with 42 *)
 Example C06_first_instruction_svc :
   outcome (run Previous RtlHex.design 60 0 (power_on (planted 0 0 false) first_svc_file) no_input []) = ([Exit 9], TReturned 9) /\
